@@ -336,6 +336,11 @@ func ext۰reflect۰Value۰MapKeys(fr *frame, args []value) value {
 		for _, p := range v.order() {
 			keys = append(keys, makeReflectValue(tKey, v.keys[p]))
 		}
+		if fr.i.w != nil && fr.i.w.mapDesc {
+			for a, b := 0, len(keys)-1; a < b; a, b = a+1, b-1 {
+				keys[a], keys[b] = keys[b], keys[a]
+			}
+		}
 
 	default:
 		panic(fmt.Sprintf("(reflect.Value).MapKeys(%T)", v))
